@@ -222,6 +222,35 @@ def run(pid, tier, replay=None):
     if not quick and n_att > rp_limit + 1:
         chk.violation("C19:retried_beyond_the_configured_number_of_failures", {"attempts": n_att, "limit": rp_limit})
 
+    # (c2) the back-off boundary of every failure count: one second before min(10 s x 2^k, 30 min) has passed since the previous attempt the peer
+    #      is not retried, at the boundary it may be; k = 0 .. 14 consecutive attempts that end without a greeting
+    run_ = peer_drv.PeerRun(w, g, [(1, 2412)], tid=2)
+    try:
+        run_.tick(1)
+        run_.step()
+        nm = run_.node.local.network_manager
+        for k in range(1, 15):
+            for p in list(nm.connected_peers.values()):
+                run_.close(run_.key_of(p))
+            wait_k = min(10 * 2 ** k, 1800)
+            run_.tick(wait_k - 1)
+            run_.step()                      # one second early: must not dial
+            run_.tick(2)
+            run_.step()
+        tr2 = run_.trace()
+    finally:
+        run_.finish()
+    verdicts, r3b = tracecheck.run("TracePeerBook", [tr2], {"MaxAttempts": rp_limit, "FirstWait": 10, "MaxWait": 1800, "FileMax": 100}, ids=[2], workers=1, timeout=3000)
+    chk.states += r3b.distinct
+    chk.traces_validated += 1
+    chk.case(("backoff_boundaries",), nontrivial=True)
+    clause, line = verdicts[2]
+    if clause != "ok":
+        chk.violation(clause, {"config": "back-off boundaries", "event": {k_: v_ for k_, v_ in tr2["events"][line - 1].items() if k_ != "post"},
+                               "events_before": [[e_["op"], e_.get("dt", len(e_.get("attempts", [])))] for e_ in tr2["events"][max(0, line - 6):line]]}, {"clause": clause})
+    for dft in tlc.tagged(r3b, "DRIFT"):
+        chk.model_drift("back-off boundaries trace event %s: %s" % (dft[1], dft[2]))
+
     # (d) atomic replacement of peers.json
     d = tempfile.mkdtemp(prefix="pj_", dir=sk.scratch())
     old = [["10.0.0.%d" % i, 2412, "OUTGOING", "2020-01-01T00:00:00Z"] for i in range(1, 120)]
